@@ -27,6 +27,14 @@ TB = [
     "compiled by the same compiler and profile; `inc-ani` / `inc-ci` run the included copy of the pub functions next to the library's. "
     "The +-*/ shapes (incl. powi = compiler-builtins' multiplication loop) are modelled and compared bit for bit; statrs' inverse normal CDF "
     "and roots' find_root_brent are not modelled (the model echoes those results, the oracle judges them against the Python twin: 1e-6 absolute)",
+    "src/core/src/index/mod.rs (anchor): the ANI fields of the native GatherResult come from calculate_gather_stats, whose only caller is the RocksDB "
+    "RevIndex (`pub mod revindex` needs the `branchwater` cargo feature, not part of this build; the Python RevIndex.gather that would call the "
+    "revindex_gather FFI is commented out, and that FFI returns only (f_match, signature, filename)): NOT reachable through the Python FFI. It is "
+    "`pub`, so rust-harness calls it directly (`nat gstats`) next to search.GatherResult on the same three sketches; point fields modelled (rustGatherAni) "
+    "and bit-identical, intervals judged by the oracle",
+    "sketchcomparison.py / search.py: the comparison and result classes are modelled as plumbing over the MinHash-level answers (inputs of the model, "
+    "pasted from the helper process; re-computed by the adapter): which answer feeds which field, None propagation, max / average of two optional values, "
+    "which CSV cells are written",
     "MinHash.size_is_accurate: scipy.stats.binom.cdf / pmf are INPUTS of the model (recorded by a proxy around distance_utils.binom inside the adapter); "
     "the model reproduces which functions are called with which arguments (binary64 +-*/ only), the probability and the answer",
     "the independent oracle evaluates 1 - x^(1/k) with Python's decimal module at 60 digits",
@@ -42,7 +50,10 @@ AS = [
     "monotonicity in binary64 is checked as non-strict (the real functions are strictly monotone: theorems strict_mono_c / strict_mono_j)",
     "inputs outside [0,1] (not ratios of sketch sizes) are only compared with the model, the property says nothing about them",
 ]
-RULE = ("six case flavours: native (the Rust estimator next to the Python one on the same inputs: point estimate, interval, r1_to_q, exp/var_n_mutated, "
+RULE = ("seven case flavours: cls (the mh flavour's sketch pairs through FracMinHashComparison - every estimate_* method and ANI property, cmp_scaled "
+        "None / max / coarser / finer, estimate_ani_ci, ani_confidence - NumMinHashComparison, PrefetchResult, GatherResult, SearchResult incl. the CSV row "
+        "written through their own DictWriter; relation oracle: every class-level ANI equals the MinHash-level answer on the correspondingly downsampled "
+        "sketches, 0.0 for reliable disjoint, 1.0 for reliable identical, withheld iff a size estimate is inaccurate), six more flavours: native (the Rust estimator next to the Python one on the same inputs: point estimate, interval, r1_to_q, exp/var_n_mutated, "
         "prob_nothing_in_common, probit), sia (size_is_accurate around its flip points, every parameter boundary, both branches of set_size_exact_prob), closed (groups of containment_to_distance / jaccard_to_distance calls sharing k, on attainable ratios biased to "
         "0, 1/b, (b-1)/b, 1, one ulp below 1, ~1e-10), res (ANIResult / jaccardANIResult / ciANIResult constructed from boundary values incl. "
         "NaN, inf, -0.0, 1+ulp, thresholds +- ulp; compared exactly), ci (estimate_ci=True over confidence levels and sizes incl. sizes where brentq fails), "
@@ -110,5 +121,5 @@ if __name__ == "__main__":
     except SystemExit:
         print("TOOL-FAILURE property=C17 rust harness does not build against the working tree")
         sys.exit(2)
-    streamlib.run_property("C17", ani, ["closed", "res", "ci", "mh", "native", "sia", "closed", "res", "mh", "native"], ani.oracle,
-                           5000, 40000, TB, AS, RULE, nontrivial=ani.nontrivial, extra=extra)
+    streamlib.run_property("C17", ani, ["closed", "res", "ci", "mh", "native", "sia", "cls", "closed", "res", "mh", "native"], ani.oracle,
+                           4400, 40000, TB, AS, RULE, nontrivial=ani.nontrivial, extra=extra)
